@@ -77,7 +77,7 @@ def results_by_case(R):
 
 # ------------------------------------------------------------------------------------------------- C02
 def run_c02(tier, t0):
-    n = 600 if tier == "quick" else 10000
+    n = 600 if tier == "quick" else 50000
     exe = build.build_flavour("asan")
     selftest_codec()
     wd = C.workdir("C02", tier)
@@ -177,8 +177,8 @@ def _c03_one(a):
 
 
 def run_c03(tier, t0):
-    nh = 700 if tier == "quick" else 6000
-    nres = 520 if tier == "quick" else 1560
+    nh = 700 if tier == "quick" else 20000
+    nres = 520 if tier == "quick" else 3100
     exe = build.build_flavour("asan")
     selftest_codec()
     wd = C.workdir("C03", tier)
@@ -302,7 +302,7 @@ def _c04_cross(a):
 
 
 def run_c04(tier, t0):
-    n = 320 if tier == "quick" else 4000
+    n = 320 if tier == "quick" else 20000
     gens = 2 if tier == "quick" else 4
     exe = build.build_flavour("asan")
     selftest_codec()
